@@ -23,7 +23,7 @@ RULE = ("clique equation tau = 2..6 (quick) / 2..7 (thorough) with distinct symb
         "vertex subsets containing the focal vertex, all k; non-trivial = tau >= 3 / n >= 4 / n >= 3 / induced subgraph with a cycle; "
         "distinct = SHA-1 of the concrete arguments")
 ASSUMPTIONS = ["polynomial identity after full expansion", "connected labelled graph counts from the recurrence C_n(y) = (1+y)^C(n,2) - sum_j C(n-1,j-1) C_j(y) (1+y)^C(n-j,2)"]
-HEADLINE = ["clique_identities", "cycle_identities", "float_checks", "Q_values", "QQ_values", "counter_checks", "oeis_anchor", "shadow_unsupported", "special_point_checks"]
+HEADLINE = ["clique_identities", "cycle_identities", "float_checks", "Q_values", "QQ_values", "counter_checks", "sweep_substrates", "sweep_counter_checks", "oeis_anchor", "shadow_unsupported", "special_point_checks"]
 REQUIRED = {t: {"clique_identities_or_numeric": 4, "cycle_identities_or_numeric": 8, "Q_values": 150, "QQ_values": 20, "counter_checks": 200, "oeis_anchor": 1,
                 "float_checks": 50, "special_point_checks": 500} for t in ("quick", "thorough")}
 SHARD_TIMEOUT = {"quick": 900, "thorough": 10800}
@@ -49,6 +49,10 @@ def gen_cases(tier, seed):
         cases.append({"kind": "QQ", "n": n, "seed": seed, "_cost": 4 ** n / 4})
     for j in range(40 if q else 600):
         cases.append({"kind": "counter", "seed": seed * 100297 + j, "_cost": 20})
+    # one process, MANY substrates: every connected 6-vertex graph (quick: those with <= 12 edges) for every k, in two different
+    # orders - among them the pairs that cheap graph invariants cannot tell apart (K_{3,3} / prism and friends)
+    for j in range(2):
+        cases.append({"kind": "counter-sweep", "seed": seed * 100297 + 5000 + j, "max_edges": 12 if q else 15, "_cost": 60})
     if not q:
         cases.append({"kind": "repo-tests", "seed": seed, "_cost": 200})
     return cases
@@ -227,6 +231,31 @@ def run_case(case):
                 res.violate("QQ-is-not-the-number-of-connected-labelled-graphs", n=n, k=kk, got=v, want=w); break
         res.nontrivial = n >= 3
         res.sample = {"kind": k, "n": n}
+    elif k == "counter-sweep":
+        from ..graphfam import atlas, atlas_graph
+        ids = [i for i in atlas(6) if atlas_graph(i).number_of_nodes() == 6 and nx.is_connected(atlas_graph(i)) and atlas_graph(i).number_of_edges() <= case["max_edges"]]
+        rng.shuffle(ids)
+        for gi in ids:
+            G = nx.Graph(atlas_graph(gi))
+            if rng.random() < 0.5:
+                G = nx.relabel_nodes(G, dict(zip(list(G.nodes()), rng.sample(range(30), G.number_of_nodes()))))
+            nodes = list(G.nodes())
+            i = rng.choice(nodes)
+            ak = [v for v in nodes if v != i]
+            rng.shuffle(ak)
+            for kk in range(0, G.number_of_edges() + 1):
+                v = sut("number_of_connected_graphs", ncg.number_of_connected_graphs, G, list(ak), i, kk)
+                w = brute_counter(G, nodes, kk)
+                res.count("counter_checks")
+                res.count("sweep_counter_checks")
+                if v != w:
+                    res.violate("connected-subgraph-counter-differs", atlas_graph=gi, edges=sorted(map(tuple, map(sorted, G.edges()))), focal=i, ak=ak, k=kk, got=v, want=w,
+                                note="%d other substrates were counted in this process before" % ids.index(gi)); break
+            if res.verdict != "held":
+                break
+        res.count("sweep_substrates", len(ids))
+        res.nontrivial = True
+        res.sample = {"kind": k, "substrates": len(ids), "first": ids[:10]}
     else:
         n = rng.randint(2, 7)
         G = nx.gnp_random_graph(n, rng.choice([0.4, 0.6, 0.8, 1.0]), seed=rng.randrange(1 << 30))
